@@ -1343,6 +1343,16 @@ func int64Of(v *decimal.Big) (int64, bool) {
 	return v.Int64()
 }
 
+// mathContext is the 16-digit working context of sqrt, exp, ln and log, over the decimal
+// library's whole exponent range like the numbers themselves: in decimal.Context64 sqrt(1e800)
+// and exp(900) were infinity, sqrt(1e-800) zero, and exp(-900) kept 8 digits.
+var mathContext = decimal.Context{
+	Precision:     decimal.Context64.Precision,
+	RoundingMode:  decimal.Context64.RoundingMode,
+	OperatingMode: decimal.Context64.OperatingMode,
+	Traps:         decimal.Context64.Traps,
+}
+
 func funAbs(v *decimal.Big) (*decimal.Big, error) {
 	return newDecimalBig().Abs(v), nil
 }
@@ -1355,7 +1365,7 @@ func funCeil(v *decimal.Big) (*decimal.Big, error) {
 
 func funExp(v *decimal.Big) (*decimal.Big, error) {
 	result := newDecimalBig()
-	decimal.Context64.Exp(result, v)
+	mathContext.Exp(result, v)
 	return result, nil
 }
 
@@ -1388,12 +1398,12 @@ func logOf(v *decimal.Big, ten bool) *decimal.Big {
 			decimal.Context128.Log(result, c)
 			decimal.Context128.FMA(result, e, ln10, result)
 		}
-		return decimal.Context64.Round(result)
+		return mathContext.Round(result)
 	}
 	if ten {
-		decimal.Context64.Log10(result, v)
+		mathContext.Log10(result, v)
 	} else {
-		decimal.Context64.Log(result, v)
+		mathContext.Log(result, v)
 	}
 	return result
 }
@@ -1445,7 +1455,7 @@ func funRoundCash(v, places *decimal.Big) (*decimal.Big, error) {
 
 func funSqrt(v *decimal.Big) (*decimal.Big, error) {
 	result := newDecimalBig()
-	decimal.Context64.Sqrt(result, v)
+	mathContext.Sqrt(result, v)
 	return result, nil
 }
 
